@@ -96,6 +96,18 @@ pub fn run(seed: u64, thorough: bool) {
                 }
             }
         }
+        // (d) counters at and beyond the end of the lifetime, up to the largest 64-bit value
+        let total = 1u64 << shape.total_height();
+        for c in [total - 1, total, total + 1, 1u64 << 31, (1u64 << 32) - 1, 1u64 << 32, (1u64 << 32) + 3, 1u64 << 62, 1u64 << 63,
+                  u64::MAX - 1, u64::MAX] {
+            let b = set_counter(&sk, c);
+            let sh = Shape { hash, levels: shape.levels.clone() };
+            emit_sign_judged(&sh, &b, b"m", true, None, "counter_out_of_range", 0.5);
+            emit_lifetime(hash, &b, "counter_out_of_range");
+            let (s, after) = try_sign(hash, &b, b"m");
+            Line::new("oracle").str("name", "try_sign_no_panic").raw("ok", if s == Out::Panic || after == Out::Panic { "false" } else { "true" })
+                .str("hash", hash).hex("blob", &b).str("tag", "counter_out_of_range").emit();
+        }
         for len in 0..=64usize {
             let mut b = sk.clone();
             b.resize(len, 0x11);
